@@ -237,6 +237,8 @@ FaultSite(at) ==
   \/ pc = "update" /\ at \in {"pre", "post"}
   \/ pc = "save" /\ at = (IF wr = 0 THEN "pre" ELSE "mid")
   \/ FinalSaveEnabled /\ at = (IF wr = 0 THEN "pre" ELSE "mid")
+  \/ pc = "run" /\ at = "setup"          \* inside the DataHandler context before the loop: save_mesh, fixed values
+  \/ pc = "assemble" /\ at = "assemble"   \* after the loop: Solution(...) / Solution.to_hdf5()
 
 Fault(kind, at) ==
   /\ faults < MaxFaults /\ kind \in FaultKinds /\ FaultSite(at)
@@ -245,9 +247,9 @@ Fault(kind, at) ==
   /\ buf' = IF pc = "update" /\ at = "post" THEN [buf EXCEPT ![bstep] = GhostUid] ELSE buf
   /\ frames' = RollbackFrames
   /\ wr' = 0
-  /\ IF kind = "KI" /\ pc # "final"
+  /\ IF kind = "KI" /\ pc \in {"update", "save"}
        THEN cancelled' = TRUE /\ pc' = "final" /\ UNCHANGED err        \* caught inside the loop
-       ELSE IF kind = "KI" /\ MFinalGuard
+       ELSE IF kind = "KI" /\ pc = "final" /\ MFinalGuard
        THEN cancelled' = TRUE /\ pc' = "stageend" /\ UNCHANGED err
        ELSE err' = TRUE /\ pc' = "close" /\ UNCHANGED cancelled        \* propagates (also KI in the final save)
   /\ UNCHANGED <<cfg, fs, serial, stage, i, t, applied, tapplied, bstep, result, simdts, tdts>>
@@ -301,7 +303,7 @@ Done == pc \in {"returned", "rejected"} /\ UNCHANGED vars
 
 Next == Build \/ Ctor \/ PreSolve \/ OpenFiles \/ Run \/ Label \/ SaveBegin \/ SaveEnd \/ Clear
         \/ Update \/ Stop \/ Final \/ StageEnd \/ Assemble \/ Close
-        \/ (\E kd \in FaultKinds, at \in {"pre", "post", "mid"} : Fault(kd, at))
+        \/ (\E kd \in FaultKinds, at \in {"pre", "post", "mid", "setup", "assemble"} : Fault(kd, at))
         \/ Done
 
 Spec == Init /\ [][Next]_vars
@@ -383,8 +385,9 @@ NoStrayOutput ==
 FreshNameChosen == (serial >= 0 /\ cfg.out = "path") => OName(serial) \notin cfg.foreign /\ TName(serial) \notin cfg.foreign
 OutputHoldsOnlyCompleteFrames == Returned => \A n \in 1..NFrames : frames[n].complete
 AllKI == \A n \in 1..Len(flog) : flog[n].kind = "KI"
+LoopFaultsOnly == \A n \in 1..Len(flog) : flog[n].where \in {"update", "save", "final"}
 CancelGivesUsableSolution ==
-  (Returned /\ Len(flog) > 0 /\ AllKI) =>
+  (Returned /\ Len(flog) > 0 /\ AllKI /\ LoopFaultsOnly) =>
      IF \E n \in 1..Len(flog) : flog[n].stage = "sim"
        THEN (NFrames > 0 => result = "solution")     \* nothing recorded yet: nothing to return
        ELSE result = "none"
